@@ -241,6 +241,12 @@ let run_case (line : string) =
       | None -> out "norc"
       | Some rc ->
         out "completed="; out (if Classify.ro_completed ro then "1" else "0");
+        (* ro.ro_id / ro.ro_slug: the text of the tag (None when blank), AttributeError when the tag is missing *)
+        let pr_tag t = match Xml.find t (Xml.kids_of rc) with
+          | Some e -> pr_ostr (Xml.text_of e)
+          | None -> out "EAttributeError" in
+        out " roid="; pr_tag Xml.t_roID;
+        out " roslug="; pr_tag Xml.t_roSlug;
         out " start="; pr_accz (Elements.ro_start_time o rc);
         out " end="; pr_accz (Elements.ro_end_time o rc);
         out " duration="; pr_accz (Elements.ro_duration o rc);
